@@ -564,7 +564,7 @@ fn corpus(jobs: &mut Vec<Job>) {
             Query { kind: Kind::Ord, items: vec![Item::Expr(Ex::Col(0))], pred: wh(), order: vec![(2, false)], limit: None, offset: 0, feat: "w:i>=+ki^".into() },
             Query { kind: Kind::Sel, items: vec![Item::Expr(Ex::Col(0)), Item::Expr(Ex::Col(2))], pred: wh(), order: vec![], limit: None, offset: 0, feat: "w:i>=".into() },
             Query { kind: Kind::Sel, items: vec![Item::Expr(Ex::Col(2))], pred: wh(), order: vec![], limit: Some(1), offset: 0, feat: "w:i>=+lim".into() }] });
-    // executor-pinned-buffer (C04/C11/C02, open): a grouping column that is also a MAX input, stored offset-coded
+    // executor-pinned-buffer (C04/C11/C02, repaired 186ef0c): a grouping column that is also a MAX input, stored offset-coded, used to panic the worker
     let t = table(vec![("id", ColType::Id, ints(&[0, 1, 2])), ("c1", ColType::Int("u8off"), ints(&[1000000000000, 1000000000007, 1000000000005]))]);
     jobs.push(Job { prefix: "corpus:executor-pinned-buffer/".into(), t, reals: vec![one(3), fixed_real(vec![0, 3], vec![true], false, 999, Mode::Mem), fixed_real(vec![0, 1, 3], vec![true, false], false, 999, Mode::Mem)],
         queries: vec![q_agg(Kind::Grp, vec![Item::Key(1), Item::Agg("max", 1)], "w-+i:ma")] });
